@@ -57,6 +57,11 @@ class ConstructPipeline(RewritePattern):
         if extract_cst_index(op.lb) != 0 or extract_cst_index(op.step) != 1:
             return
 
+        # loop-carried values are not supported: the unrolled pipeline peels
+        # iterations off the loop and evaluates the index ops several times
+        if op.iter_args:
+            return
+
         # no nested for loop allowed
         for operation in op.walk():
             if operation is not op and isinstance(operation, ForOp):
